@@ -57,12 +57,28 @@ SigTags == {62, 267, 268, 269, 273, 278, 1002, 1004, 274}
 H4 == { [fam |-> "H4", where |-> "sig", hdr |-> [entries |-> << <<t0, ty, o, c>> >>, store |-> <<65, 0, 66, 0, 0, 0, 0, 9>>]]
           : t0 \in SigTags, ty \in {0, 4, 6, 7, 8, 9}, o \in {0, 4, 7, 8}, c \in {0, 1, 2, 4, 8} }
 
+\* H5: parallel per-file arrays of different lengths (typed, otherwise well-formed headers): two files, one of
+\* the per-file tags with 0, 1 or 3 items, incl. the optional capability and (signature header) IMA arrays
+Str(n) == [i \in 1..n |-> <<102, 48 + i>>]
+Num(n) == [i \in 1..n |-> <<0, 33188>>]
+PerFile == << <<1117, 8>>, <<1116, 4>>, <<1030, 3>>, <<1039, 8>>, <<1040, 8>>, <<1035, 8>>, <<1034, 4>>, <<1028, 4>>, <<1037, 4>>, <<1036, 8>>, <<5010, 8>> >>
+Typed(short, n) == [k \in 1..Len(PerFile) |->
+    [tag |-> PerFile[k][1], type |-> PerFile[k][2],
+     v |-> LET m == IF PerFile[k][1] = short THEN n ELSE 2 IN
+           IF PerFile[k][2] = 8 THEN (IF PerFile[k][1] \in {1035, 1036, 5010} THEN [i \in 1..m |-> <<>>] ELSE Str(m))
+           ELSE IF PerFile[k][1] = 1116 THEN [i \in 1..m |-> <<0, 0>>]
+           ELSE IF PerFile[k][2] = 3 THEN [i \in 1..m |-> <<33188>>] ELSE Num(m)]]
+H5 == { [fam |-> "H5", predict |-> "ok", payload |-> 0,
+         sig |-> [typed |-> IF sg = 0 THEN <<>> ELSE << [tag |-> 274, type |-> 8, v |-> Str(sg)] >>],
+         hdr |-> [typed |-> Typed(t, n) \o << [tag |-> 1118, type |-> 8, v |-> << <<47, 111, 47>> >>] >>]]
+          : t \in {PerFile[k][1] : k \in 1..Len(PerFile)} \cup {0}, n \in {0, 1, 3}, sg \in {0, 1, 3} }
+
 ToCase(x) == [fam |-> x.fam, predict |-> Predict(x.hdr),
               sig |-> IF x.where = "sig" THEN x.hdr ELSE NomSig,
               hdr |-> IF x.where = "hdr" THEN x.hdr ELSE NomHdr, payload |-> 3]
 VARIABLE done
 Init == done = FALSE
 Next == ~done /\ done' = TRUE /\ ndJsonSerialize(IOEnv.OUT, SetToSeq({ToCase(x) : x \in H1}) \o SetToSeq({ToCase(x) : x \in H2})
-                                                             \o SetToSeq({ToCase(x) : x \in H3}) \o SetToSeq({ToCase(x) : x \in H4}))
+                                                             \o SetToSeq({ToCase(x) : x \in H3}) \o SetToSeq({ToCase(x) : x \in H4}) \o SetToSeq(H5))
 Spec == Init /\ [][Next]_done
 =============================================================================
